@@ -7,6 +7,7 @@ import time
 import traceback
 from pathlib import Path
 
+import fingerprint
 import proofgate
 from common import VERIF, seed_from_env, ensure_driver, run_driver_parallel, DriverError
 
@@ -268,6 +269,15 @@ def _main(check, tier, seed, replay, t0):
     gate = proofgate.run(prop, tier)
     ensure_driver()
     cases = check.corpus() + list(check.generate(seed, tier))
+    # the source differs from the tree the model was audited against (fingerprint.py): not a violation, but a
+    # reason to sample deeper before deciding - further generator seeds, implementation and model both run
+    src_changed = fingerprint.changed() or []
+    deepened = 0
+    if src_changed and tier == "quick":
+        for k in range(1, int(os.environ.get("VERIF_DEEPEN", "2")) + 1):
+            more = list(check.generate(seed + 104729 * k, tier))
+            deepened += len(more)
+            cases += more
     cov = COV if COV is not None else start_coverage()
     rows = evaluate(check, cases)
     anchored = stop_coverage(cov, prop)
@@ -368,6 +378,8 @@ def _main(check, tier, seed, replay, t0):
             "property_predicate_failures": len(prop_fail_rows),
             "known_findings_reported": sorted(known_hits.keys()),
             "failing_input_search_cases": searched,
+            "source_differs_from_audited_tree": src_changed,
+            "cases_added_because_source_differs": deepened,
             "input_distribution": acc,
             "anchored_file_line_coverage": anchored,
         },
